@@ -10,6 +10,10 @@ Judge(o) ==
     (IF o.panic THEN {"C10.NoPanic", "C11.NoPanic"} ELSE {})
     \cup (IF o.same THEN {} \* nothing is converted or buffered on a pass-through route
           ELSE Verdict([wire |-> o.wire, plain |-> o.plain, recoded |-> o.recoded], o.scn.L, o.ok, o.delivered, o.code, o.held))
+    \* the same request with its last bytes and the end of the body in ONE Read result: same fate (C08), and in
+    \* particular the limit holds there too (C10)
+    \cup (IF o.alt.has /\ (o.alt.ok # o.ok \/ o.alt.code # o.code \/ o.alt.delivered # o.delivered \/ o.alt.panic # o.panic)
+          THEN {"C08.SameWhenEndComesWithData", "C10.SameWhenEndComesWithData"} ELSE {})
 Init == i = 1 /\ nbad = 0
 Consume ==
     /\ i <= Len(Trace)
